@@ -278,7 +278,7 @@ def run(ctx):
 
 MANIFEST = {
     "category": "proof",
-    "text": "Coq theorem encode_correct: for every schema of the keyword subset (unbounded nesting) that uses none of the listed deviating constructs, and every JSON instance, the predicate built by the importer's encoding strategy (kind-indexed disjunction with allowedTypes/knownTypes mask threading, matchN/matchIf, closed structs with optional fields and patterns, list validators; Schema/Encode.v follows schemaState/finalize and every constraint* function) equals JSON Schema 2020-12 validity (Schema/Sem.v, validated against the vendored test-suite). Each excluded construct has a machine-checked refutation witness. The model is tied to /repo by agreement of Extract+Unify+Validate verdicts (and import-time errors) with the extracted model on generated schemas x instances, and the generated-back JSON Schema is compared on a validated domain.",
+    "text": "Coq theorem encode_correct: for every schema of the keyword subset (unbounded nesting) that uses none of the listed deviating constructs, and every JSON instance, the predicate built by the importer's encoding strategy (kind-indexed disjunction with allowedTypes/knownTypes mask threading, matchN/matchIf, closed structs with optional fields and patterns, list validators; Schema/Encode.v follows schemaState/finalize and every constraint* function) equals JSON Schema 2020-12 validity (Schema/Sem.v, validated against the vendored test-suite). Each excluded construct has a machine-checked refutation witness. The model is tied to /repo by agreement of Extract+Unify+Validate verdicts (and import-time errors) with the extracted model on generated schemas x instances, and the generated-back JSON Schema is compared on a validated domain. $ref/$defs: documents with named acyclic references are a separate syntax (Schema/Refs.v rschema); theorems C13_ref_semantics (following references = validity of the inlined schema, every fuel), C13_ref_fuel_suffices / C13_ref_fuel_independent (fuel >= number of definitions gives a fuel-independent result for every ordered table) and C13_encode_correct_doc (the main theorem for documents); the correspondence sends the un-inlined document (shared definitions, chains, references below items/properties, dangling references) and the extracted resolve_doc/doc_ok do the inlining.",
     "note": "Trusted: Coq kernel; the hand-written model of the importer and of the CUE validators it targets; regexp oracle = Go regexp; extraction and drivers. Numbers are multiples of 1/2. Known deviations of the pinned tree (allOf count, dropped `false`, propertyNames, required+closed, prefixItems, empty property name) are reported as KNOWN-FINDING, not as violations. Evaluator closedness bugs at the root of a generated file are kept out of the generator domain (design/C13.md). jsonschema.Generate is best effort by its own documentation; the reverse direction is strict only on the validated domain.",
     "technique": "Coq proof (compiler correctness of the encoding by an invariant over the decoder state) + extracted-model differential check against the Go importer + independent test-suite validation of the specification model",
 }
